@@ -104,3 +104,50 @@ def index_chain(term: P):
         iroot, iops = index_chain(a[2][0])
         return root, ops + [iroot] + iops
     return term.key(), []
+
+
+DTYPE_INHERITING = {"numpy.tile", "numpy.copy", "numpy.empty_like", "numpy.zeros_like", "numpy.ones_like", "numpy.full_like",
+                    "numpy.pad", "numpy.repeat", "numpy.array", "numpy.asarray"}
+
+
+def dtype_inheritance_sites(ev, data_roots):
+    """Buffers whose dtype is inherited from caller data and that then receive computed (floating) values.
+
+    data_roots: keys of terms holding caller data (parameters, attributes).  Returns [(event, description)].
+    A dtype=... keyword naming a float type, or .astype(float), makes the site safe.
+    """
+    from ..symex import obj_init
+    out = []
+    suspects = {}
+    for e in ev.events:
+        if e.kind not in ("assign", "store") or e.value is None:
+            continue
+        v = obj_init(e.value)
+        a = v.as_atom()
+        if not a or a[0] != "call":
+            continue
+        cn = call_name(a)
+        if cn not in DTYPE_INHERITING or not a[2]:
+            continue
+        kw = dict(a[3]) if len(a) > 3 else {}
+        if "dtype" in kw and any(w in kw["dtype"].key() for w in ("float", "complex", "double")):
+            continue
+        src = a[2][0]
+        rooted = any(src.key() == r or src.key().startswith(r + "[") or src.key().startswith(r + ".") for r in data_roots)
+        if not rooted:
+            continue
+        if cn == "numpy.full_like" and len(a[2]) > 1:
+            out.append((e, f"{cn}({src}, {a[2][1]}): the fill value is cast to the dtype of {src}"))
+            continue
+        if cn in ("numpy.array", "numpy.asarray"):
+            continue
+        key = e.value.key() if e.kind == "assign" else e.target.key()
+        suspects[key] = (e, f"{cn}({src}, ...) inherits the dtype of {src}")
+    if suspects:
+        for e in ev.events:
+            if e.kind in ("store", "aug"):
+                t = e.target.as_atom()
+                if t and t[0] == "sub" and t[1].key() in suspects:
+                    s = suspects.pop(t[1].key())
+                    out.append((s[0], s[1] + f" and then receives computed values ({str(e.target)[:60]} = ...)"))
+    return out
